@@ -293,6 +293,25 @@ var worlds = []*wdef{
 		share: 0.4,
 	},
 	{
+		// two requests against ONE validator opened in one block (the duplicate test only sees committed
+		// requests), the first one decided in that very block or later, votes on the second one afterwards.
+		// (Added after a seeded change - the duplicate clean-up moved behind the tally - escaped the worlds in
+		// which requests against one validator came in different blocks.)
+		name: "dup", nVals: 4, votePct: 50,
+		prefix: quiet(2),
+		alphabet: []event{
+			ev(),
+			ev(alleg("A", v1, v3), alleg("A2", v2, v3)),
+			ev(alleg("A", v1, v3), alleg("A2", v2, v3), vote("A", v1, true), vote("A", v2, true)),
+			ev(vote("A", v1, true), vote("A", v2, true)),
+			ev(vote("A2", v1, true), vote("A2", v4, true)),
+			ev(vote("A2", v4, true)),
+			ev(vote("A", v4, false)),
+		},
+		depth: map[string]int{"quick": 4, "thorough": 6},
+		share: 0.3,
+	},
+	{
 		// before any status record exists (they are first written by EndBlock(2))
 		name: "early", nVals: 4, votePct: 50,
 		prefix: nil,
